@@ -154,6 +154,12 @@ def run(ctx) -> None:
 
     queue_bookkeeping(ctx, RQ, RQ, RQ)
     skip_decision(ctx, RQ)
+    # queue entries are (event, watch) pairs compared with ==: "equals the pending item" is only "same event for the same watch"
+    # if watch equality is the full identity (path, recursive flag, filter) -- shared instances with C13
+    RE = ctx.rule("C04/entry-equality-includes-the-watch", "ObservedWatch ==, != and hash are functions of the one key (path, recursive flag, filter): an event for one watch is never coalesced into an equal event of another watch on the same path", floor=4)
+    from .c13 import watch_identity
+
+    watch_identity(ctx, RE, P)
     ctx.assumptions += ["threading.RLock provides mutual exclusion and re-entrancy", "queue.Queue is FIFO and hands each item to exactly one get()"]
 
 
@@ -168,6 +174,7 @@ _DISPATCH = """        with self._lock:
                     handler.dispatch(event)
 """
 VARIANTS = [
+    dict(name="B watch equality ignores the filter", expect="fire", rule="C04/entry-equality-includes-the-watch", edits=[(API, "        return self.key == watch.key\n", "        return (self._path, self._is_recursive) == (watch._path, watch._is_recursive)\n")]),
     dict(name="B drop lock at dispatch", expect="fire", rule="C04/", edits=[(API, _DISPATCH, """        if True:
             for handler in self._handlers[watch].copy():
                 if handler in self._handlers[watch]:
